@@ -75,9 +75,14 @@ def rider_pkgmanager(ctx):
     mc4 = sub.model_check("MCPkgManager", "MCPkgManager_foreign4.cfg", sub="mc4", workers=4, timeout=600)
     scs += [{"id": "%s-pkgm4-%07d" % (PID, i), "hist": h}
             for i, h in sub.sample_lines_stratified(mc4["emitted_file"], 600 if ctx.quick else 10 ** 6, mc4["emitted"])]
+    # ... and EVERY revision but the package's own current one is foreign: the history exceeds the limit, yet there is nothing the
+    # package may delete (added after the seeded change C02-m8 - "no candidate" falls back to the first revision listed - was missed)
+    mc2 = sub.model_check("MCPkgManager", "MCPkgManager_foreign2.cfg", sub="mc2", workers=4, timeout=600)
+    scs += [{"id": "%s-pkgm2-%07d" % (PID, i), "hist": h}
+            for i, h in sub.sample_lines_stratified(mc2["emitted_file"], 500 if ctx.quick else 10 ** 6, mc2["emitted"])]
     s, n = c14.drive_and_judge(sub, scs, sweep=2)
     sub.violations = [v for v in sub.violations if v["formula"].startswith("Foreign")]
-    return sub, dict(states=mc["states"] + mc4["states"], transitions=mc["transitions"] + mc4["transitions"], runs=s["runs"], events=n,
+    return sub, dict(states=mc["states"] + mc4["states"] + mc2["states"], transitions=mc["transitions"] + mc4["transitions"], runs=s["runs"], events=n,
                      samples=s["samples"][:1])
 
 
